@@ -12,7 +12,9 @@
 (***************************************************************************)
 EXTENDS Integers, Sequences, FiniteSets, TLC
 
-CONSTANTS MaxBlocks, MaxRecs
+CONSTANTS MaxBlocks, MaxRecs,
+          DeferCbError   \* FALSE: the library. TRUE: the callback's error is held back until the block's sync marker has been
+                         \* checked (seeded change C07-callback-error-deferred-behind-sync-check); cfg ReaderDamage_defect must violate AtEnd
 VARIABLES hdr, blocks, cbFail, pc, bi, ri, delivered, calls, result
 
 vars == <<hdr, blocks, cbFail, pc, bi, ri, delivered, calls, result>>
@@ -40,11 +42,14 @@ RDecomp == /\ pc = "decomp"
 RRec == /\ pc = "rec"
         /\ IF ri > blocks[bi].n THEN pc' = "sync" /\ UNCHANGED <<hdr, blocks, cbFail, bi, ri, delivered, calls, result>>
            ELSE /\ calls' = calls + 1
-                /\ IF calls + 1 = cbFail THEN /\ pc' = "end" /\ result' = "sentinel" /\ UNCHANGED <<hdr, blocks, cbFail, bi, ri, delivered>>
+                /\ IF calls + 1 = cbFail THEN /\ pc' = (IF DeferCbError THEN "sync" ELSE "end")
+                                                /\ result' = (IF DeferCbError THEN "held" ELSE "sentinel")
+                                                /\ UNCHANGED <<hdr, blocks, cbFail, bi, ri, delivered>>
                    ELSE /\ delivered' = Append(delivered, <<bi, ri>>) /\ ri' = ri + 1 /\ UNCHANGED <<hdr, blocks, cbFail, bi, pc, result>>
 RSync == /\ pc = "sync"
-         /\ IF blocks[bi].sync = "ok" THEN pc' = "block" /\ bi' = bi + 1 /\ UNCHANGED <<hdr, blocks, cbFail, ri, delivered, calls, result>>
-            ELSE Stop("err")
+         /\ IF blocks[bi].sync # "ok" THEN Stop("err")
+            ELSE IF result = "held" THEN Stop("sentinel")
+            ELSE pc' = "block" /\ bi' = bi + 1 /\ UNCHANGED <<hdr, blocks, cbFail, ri, delivered, calls, result>>
 Next == RHeader \/ RBlock \/ RDecomp \/ RRec \/ RSync
 Spec == Init /\ [][Next]_vars /\ WF_vars(Next)
 
